@@ -862,6 +862,9 @@ pub fn gen_c20(rng: &mut Rng, tier: Tier) -> Value {
                         t.push(json!({"op":"register","key":ki,"fresh":fresh}));
                     } else {
                         let n = *rng.pick(&[1u64, 1, 2, 7, 1000, 1 << 33]) + rng.below(3);
+                        // (a third of the largest: beyond what a double represents exactly; no further draw)
+                        // (multiples of 256: the plan stores the value as a double, exactly)
+                        let n = if n >= 1 << 33 && fresh { (1u64 << 56) + (n & 3) * 256 } else { n };
                         t.push(json!({"op":"inc","key":ki,"v":n as f64,"fresh":fresh}));
                     }
                 }
